@@ -1,5 +1,6 @@
 import AndaVerif.Model.Schema
 import AndaVerif.Model.SchemaDoc
+import AndaVerif.Model.SchemaJson
 import AndaVerif.Drv.Util
 /-
 Driver of the C13 model. One request per line, tokens separated by one space.
@@ -10,7 +11,8 @@ Driver of the C13 model. One request per line, tokens separated by one space.
            | j json | v<hex, 4 digits per element> | a<n> value*n | m<n> (key value)*n | z
   json   ::= jz | jb0 | jb1 | ju<nat> | ji<int> | jd<hex16> | js<hex> | ja<n> json*n | jo<n> (k<hex key> json)*n
   cbor   ::= cb0 | cb1 | ci<int> | cd<hex16> | cy<hex> | ct<hex> | ca<n> cbor*n | cm<n> (cbor cbor)*n | cz
-  hint   ::= - | <hex16>,<hex16>,…   f64 bit patterns for which the JSON clause of is_f32_read_back holds
+  hint   ::= - | item,item,…   item = <hex16>: an f64 bit pattern for which the JSON clause of is_f32_read_back holds;
+                               item = <hex8>><hex16>: f32 bits > the f64 serde_json parses from its own rendering of that f32
                                      (computed by the harness; the shortest-decimal rule is not modelled)
 
   cx - <maxDepth> <maxNodes> <maxArrayLen> <maxMapEntries> value    -> ok | err
@@ -21,6 +23,8 @@ Driver of the C13 model. One request per line, tokens separated by one space.
   rt <hint> type value         set_field, then load of the stored value -> err | ok value | <load answer>
   load <hint> type value       cbor2 encode, decode, try_from_doc   -> ok value | err:ser | err:de | err:read
   ext <hint> type cbor         FieldType::extract                   -> ok value | err
+  jrt <hint> type value        set_field, then serde_json text → FieldValue → try_from_doc -> err | ok value | <answer of jload>
+  jload <hint> type value      serde_json::to_string, from_str, try_from_doc -> ok value | err:ser | err:de | err:read
   ext <hint> type cbor         Document::try_from, one field        -> ok value | err
   compat - newtype oldtype     FieldType::is_compatible_upgrade_of  -> true | false
  stateful (one current schema, a list of stored documents; `reset` -> ok forgets both):
@@ -268,7 +272,63 @@ def drvFloat (hint : List Nat) : FloatModel where
   jsonReadBack n := hint.contains n
 
 def parseHint (s : String) : Option (List Nat) :=
-  if s = "-" then some [] else (s.splitOn ",").mapM hexNat?
+  if s = "-" then some [] else ((s.splitOn ",").filter (fun i => !(i.contains '>'))).mapM hexNat?
+
+/-- the `f32 bits > f64 bits` items of a hint -/
+def parseWiden (s : String) : Option (List (Nat × Nat)) :=
+  if s = "-" then some [] else ((s.splitOn ",").filter (fun i => i.contains '>')).mapM (fun i =>
+    match i.splitOn ">" with
+    | [a, b] => do pure (← hexNat? a, ← hexNat? b)
+    | _ => none)
+
+/-! ### the text model of the driver: real prefixes, URL-safe Base64 with padding, decimal -/
+
+def b64Alphabet : Array Char := "ABCDEFGHIJKLMNOPQRSTUVWXYZabcdefghijklmnopqrstuvwxyz0123456789-_".toList.toArray
+
+def b64Encode : List Nat → List Char
+  | [] => []
+  | [a] => [b64Alphabet[a / 4]!, b64Alphabet[(a % 4) * 16]!, '=', '=']
+  | [a, b] => [b64Alphabet[a / 4]!, b64Alphabet[(a % 4) * 16 + b / 16]!, b64Alphabet[(b % 16) * 4]!, '=']
+  | a :: b :: c :: r =>
+    b64Alphabet[a / 4]! :: b64Alphabet[(a % 4) * 16 + b / 16]! :: b64Alphabet[(b % 16) * 4 + c / 64]! ::
+      b64Alphabet[c % 64]! :: b64Encode r
+
+def b64Val (c : Char) : Option Nat := (b64Alphabet.toList.findIdx? (· == c))
+
+/-- strict decoding: canonical padding and zero trailing bits, as the `base64` crate's default -/
+partial def b64Decode : List Char → Option (List Nat)
+  | [] => some []
+  | [a, b, '=', '='] => do
+    let a ← b64Val a; let b ← b64Val b
+    if b % 16 != 0 then none else pure [a * 4 + b / 16]
+  | [a, b, c, '='] => do
+    let a ← b64Val a; let b ← b64Val b; let c ← b64Val c
+    if c % 4 != 0 then none else pure [a * 4 + b / 16, (b % 16) * 16 + c / 4]
+  | a :: b :: c :: d :: r => do
+    let a ← b64Val a; let b ← b64Val b; let c ← b64Val c; let d ← b64Val d
+    let rest ← b64Decode r
+    pure ((a * 4 + b / 16) :: ((b % 16) * 16 + c / 4) :: ((c % 4) * 64 + d) :: rest)
+  | _ => none
+
+def drvText : TextModel where
+  needsEscape s := s.startsWith "b64:" || s.startsWith "txt:" || s.startsWith "i64:"
+  esc s := "txt:" ++ s
+  b64 b := "b64:" ++ String.ofList (b64Encode b)
+  i64s i := "i64:" ++ toString i
+  classify s :=
+    if s.startsWith "i64:" then .i64 (dropPrefix s 4).toInt?
+    else if s.startsWith "b64:" then .b64 (b64Decode (dropPrefix s 4).toList)
+    else if s.startsWith "txt:" then .txt (dropPrefix s 4)
+    else .plain
+
+def jloadStr (fm : FloatModel) (jw : Nat → Nat) (ft : FieldType) (v : FieldValue) : String :=
+  match toJ fm drvText jw v with
+  | none => "err:ser"
+  | some j => match fromJ drvText j with
+    | none => "err:de"
+    | some r => match readPath fm ft r with
+      | none => "err:read"
+      | some x => "ok " ++ showValue x
 
 def wfArgs (fm : FloatModel) (v : FieldValue) : Bool := v.WF fm
 
@@ -304,6 +364,14 @@ def valueStep (ws : List String) : Option String :=
       | none => pure "err"
       | some s => pure ("ok " ++ showValue s ++ " | " ++ loadStr fm ft s)
     | "load" => pure (loadStr fm ft v)
+    | "jload" | "jrt" =>
+      let ws ← parseWiden hint
+      -- a missing pair is a protocol error, not a default
+      let jw : Nat → Nat := fun x => match ws.lookup x with | some d => d | none => 0
+      if op == "jload" then pure (jloadStr fm jw ft v)
+      else match setField fm ft v with
+        | none => pure "err"
+        | some s => pure ("ok " ++ showValue s ++ " | " ++ jloadStr fm jw ft s)
     | _ => none
   | _ => none
 
